@@ -691,10 +691,13 @@ def run(tier: str, replay: str | None = None):
     # 2. cases
     cases = []  # (sig, raw)
     kind_cases = []  # (kind, sig, raw, presets): other callable kinds, end to end
+    replay_ucases = []  # union-of-mappings cases of a replay
     if replay:
         r = json.loads(Path(replay).read_text())
         c = r["input"]
-        if "kind" in c:
+        if any(r[0] == "ux" for r in c["raw"]):
+            replay_ucases.append((c["sig"], c["raw"]))
+        elif "kind" in c:
             kind_cases.append((c["kind"], c["sig"], c["raw"], tuple(c["presets"]) if c.get("presets") else None))
         else:
             cases.append((c["sig"], c["raw"]))
@@ -884,8 +887,8 @@ def run(tier: str, replay: str | None = None):
 
     # 5c. `**x` with x a union of closed mappings (preprocess_args' key-by-key merge)
     n_union = n_union_acc = 0
-    if exe is not None and not replay:
-        ucases = gen_union_cases(rng, 1000 if not thorough else 8000)
+    if exe is not None and (not replay or replay_ucases):
+        ucases = replay_ucases or gen_union_cases(rng, 1000 if not thorough else 8000)
         umodel = lib.ocaml_run(exe, ["U" + enc_sig(s_) + "|" + enc_raw_u(r_) for s_, r_ in ucases])
         umods = run_union_modules(ucases)
         for (sig, raw), m, mv in zip(ucases, umodel, umods):
